@@ -122,6 +122,17 @@ func (cx *Connection) Write(p []byte) (n int, err error) {
 	return
 }
 
+// CloseWrite shuts down the writing side of the underlying connection if it
+// supports that (TCP, Unix sockets, TLS, or a wrapper that forwards it). The
+// embedded net.Conn does not promote this method, so without it a connection
+// that wraps a Connection (tee, proxy_protocol) could never be half-closed.
+func (cx *Connection) CloseWrite() error {
+	if cw, ok := cx.Conn.(interface{ CloseWrite() error }); ok {
+		return cw.CloseWrite()
+	}
+	return errors.New("underlying connection does not support CloseWrite")
+}
+
 // Wrap wraps conn in a new Connection based on cx (reusing
 // cx's existing buffer and context). This is useful after
 // a connection is wrapped by a package that does not support
